@@ -471,7 +471,7 @@ def find_sites(term):
     return out
 
 
-def match_sum(chk, name, site_app, ps, a, b, hyps, func=None, meta=None, assumptions=()):
+def match_sum(chk, name, site_app, ps, a, b, hyps, func=None, meta=None, assumptions=(), scale=None):
     """Obligations that the code's reduction `site_app` (a sum) denotes sum_{t=a}^{b} g(t) for the prefix sum `ps`:
         sum-range : the code's range has the same number of terms (after the shift t_code = t_spec - a + lo_code), or the extra
                     terms on either side are all zero (sum-extra-zero);
@@ -493,5 +493,10 @@ def match_sum(chk, name, site_app, ps, a, b, hyps, func=None, meta=None, assumpt
     sig = chk.add(f"{name}/sum-range#signature-last-term-missing", list(hyps), z3.And(hi_c - lo_c == b - a - 1, b >= a), kind="signature", assumptions=assumptions)
     sig.meta["signature_for"] = f"{chk.pid}/{name}/sum-range"
     term_c = T.zr(site.term(oidx, t + shift))
+    if scale is not None:
+        # homogeneity: scale * sum_t c(t) = sum_t scale * c(t)
+        term_c = T.zr(scale) * term_c
     chk.add(f"{name}/sum-term", list(hyps) + [t >= a, t <= b], term_c == T.zr(ps.g(t)), kind="sum-term", func=func, meta=meta, assumptions=assumptions)
+    if scale is not None:
+        return T.zr(scale) * site_app == ps.range_sum(a, b)
     return site_app == ps.range_sum(a, b)
